@@ -5,7 +5,7 @@ CONSTANTS
   MaxMods = 3
   FixShort = TRUE
   FixMid = TRUE
-  Tasks = {"uniq"}
+  Tasks = {"fptr"}
   DbInputs <- MCDbInputs
 INVARIANT NoAbort
 INVARIANT StepBound
